@@ -156,6 +156,23 @@ type crSpec struct {
 	DiscardPct int      `json:"discard_pct"` // of the transactions
 	CompactPct int      `json:"compact_pct"`
 	Keys       int      `json:"keys"`
+	KeyLen     int      `json:"key_len,omitempty"` // pad the k.. keys to this length (long imin/imax in manifest records)
+	// BigManifest: flush-only layout (no table compaction, no write stalls) so that the manifest grows past
+	// 32 KiB without rotation and its records straddle journal block boundaries; see options().
+	BigManifest bool `json:"big_manifest,omitempty"`
+}
+
+// options is the option set of a workload: Opts plus what gen.Opts cannot express.
+func (s *crSpec) options() *opt.Options {
+	o := s.Opts.Options()
+	if s.BigManifest {
+		o.CompactionL0Trigger = 1 << 20
+		o.WriteL0SlowdownTrigger = 1 << 20
+		o.WriteL0PauseTrigger = 1 << 20
+		o.DisableSeeksCompaction = true
+		o.MaxManifestFileSize = 0 // default (64 MiB): no rotation
+	}
+	return o
 }
 
 func crHeadKey(id int) string { return fmt.Sprintf("m%06d", id) }
@@ -200,8 +217,15 @@ func (s *crSpec) gen() []*crBatch {
 			}
 			b.Chunks = 1 + r.Intn(3)
 		}
+		if s.BigManifest && b.Kind == "write" {
+			n = 1 + r.Intn(4)
+			vsz = func() int { return r.Intn(20) }
+		}
 		for j := 0; j < n; j++ {
 			k := fmt.Sprintf("k%02d", r.Intn(keys))
+			if s.KeyLen > len(k) {
+				k += strings.Repeat("x", s.KeyLen-len(k))
+			}
 			if r.Intn(4) == 0 {
 				b.Ops = append(b.Ops, crOp{K: k, Del: true})
 			} else {
@@ -374,7 +398,7 @@ func crFdName(fd storage.FileDesc) string { return fmt.Sprintf("%s-%d", stor.FtN
 
 // imageHex renders an image for a replay file (nil when it is too large to be useful).
 func crImageHex(s *stor.Stor) map[string]interface{} {
-	if s == nil || s.TotalBytes() > 384<<10 {
+	if s == nil || s.TotalBytes() > 2<<20 {
 		return nil
 	}
 	files := map[string]string{}
@@ -436,6 +460,25 @@ func (sh crShadow) takeImage(s *stor.Stor, seed uint64) *stor.Stor {
 		}
 	}
 	return img
+}
+
+// takeImageCut is takeImage with the named manifest cut at byte cut (full = its current bytes).
+func (sh crShadow) takeImageCut(s *stor.Stor, seed uint64, mfd storage.FileDesc, cut int) *stor.Stor {
+	img := sh.takeImage(s, seed)
+	if full, ok := s.ImageLocked(nil).FileBytes(mfd); ok && cut <= len(full) {
+		img.PutFile(mfd, full[:cut])
+	}
+	return img
+}
+
+// currentManifest is the manifest with the largest number (the one being written).
+func (sh crShadow) currentManifest() (fd storage.FileDesc, length, synced int, ok bool) {
+	for f, l := range sh {
+		if f.Type == storage.TypeManifest && (!ok || f.Num > fd.Num) {
+			fd, length, synced, ok = f, l[0], l[1], true
+		}
+	}
+	return
 }
 
 var crTailNames = [...]string{"lost", "kept", "cut", "cut+zeros", "cut+garbage"}
@@ -620,6 +663,9 @@ type crPoint struct {
 	OpSeq   int    `json:"op_seq"` // index of the storage operation before which the crash happens
 	Op      string `json:"op"`
 	ImgSeed uint64 `json:"image_seed"` // rng.New(seed) is handed to stor.ImageLocked
+	// ManifestCut > 0: afterwards the current manifest is cut at this byte (inside its unsynced tail)
+	ManifestCut int    `json:"manifest_cut,omitempty"`
+	Manifest    string `json:"manifest,omitempty"`
 }
 
 type crImgCase struct {
@@ -627,6 +673,9 @@ type crImgCase struct {
 	issued int
 	acked  []int // must be present
 	path   []crPoint
+	// tornStraddle: the manifest was cut inside an unsynced record after a 32 KiB block boundary that the
+	// record straddles (only the record's first journal chunk survives)
+	tornStraddle bool
 }
 
 type crashEnv struct {
@@ -667,7 +716,14 @@ func (e *crashEnv) replay(ic *crImgCase, pristine *stor.Stor, extra map[string]i
 
 func (e *crashEnv) violate(oracle, msg string, ic *crImgCase, pristine *stor.Stor) {
 	last := ic.path[len(ic.path)-1]
-	e.c.Res.Violate(e.sigPref+"crash-image:"+oracle, fmt.Sprintf("config %s, crash before storage op #%d (%s), depth %d: %s", e.spec.Config, last.OpSeq, last.Op, len(ic.path), msg), e.replay(ic, pristine, nil))
+	sig := e.sigPref + "crash-image:" + oracle
+	if ic.tornStraddle && (oracle == "acked-missing" || oracle == "contents-mismatch" || strings.HasPrefix(oracle, "reopen-error")) {
+		// session.recover decodes the surviving first chunk of the torn record into its re-used record: the
+		// scalars (journal number, sequence number) stick although the record is skipped
+		sig = "session.recover:torn-manifest-record-keeps-scalars:" + oracle
+		msg = fmt.Sprintf("manifest %s cut at byte %d inside an unsynced record that straddles a 32 KiB block boundary: %s", last.Manifest, last.ManifestCut, msg)
+	}
+	e.c.Res.Violate(sig, fmt.Sprintf("config %s, crash before storage op #%d (%s), depth %d: %s", e.spec.Config, last.OpSeq, last.Op, len(ic.path), msg), e.replay(ic, pristine, nil))
 	e.c.Res.Count("outcome", "violation:"+oracle)
 }
 
@@ -695,7 +751,7 @@ func (e *crashEnv) check(ic *crImgCase, r *rng.R) {
 					c.Res.Count("tail_policy", p)
 				}
 				nested = append(nested, &crImgCase{img: sh.takeImage(s, seed), issued: ic.issued, acked: ic.acked,
-					path: append(append([]crPoint(nil), ic.path...), crPoint{op.Seq, "recovery:" + string(op.Kind) + "/" + crFdName(op.Fd), seed})})
+					path: append(append([]crPoint(nil), ic.path...), crPoint{OpSeq: op.Seq, Op: "recovery:" + string(op.Kind) + "/" + crFdName(op.Fd), ImgSeed: seed})})
 				c.Res.Count("crash_op", "recovery:"+string(op.Kind)+"/"+stor.FtName(op.Fd.Type))
 			}
 			sh.apply(op)
@@ -893,6 +949,10 @@ func (cr *crashRun) run(r *rng.R) {
 		atomic.AddInt64(&e.progress, 1)
 		defer sh.apply(op)
 		nmut++
+		if e.spec.BigManifest {
+			cr.bigManifestPoint(s, op, sh, ir, cr2, nmut)
+			return
+		}
 		if nmut%cr.every != 0 || atomic.LoadInt32(&e.stopped) != 0 || !c.TimeLeft() {
 			return
 		}
@@ -912,7 +972,7 @@ func (cr *crashRun) run(r *rng.R) {
 			if unsynced == 0 {
 				c.Res.Count("tail_policy", "nothing-unsynced")
 			}
-			ic := &crImgCase{img: sh.takeImage(s, seed), issued: issued, acked: acked, path: []crPoint{{op.Seq, opName, seed}}}
+			ic := &crImgCase{img: sh.takeImage(s, seed), issued: issued, acked: acked, path: []crPoint{{OpSeq: op.Seq, Op: opName, ImgSeed: seed}}}
 			e.check(ic, cr2)
 			atomic.AddInt64(&e.progress, 1)
 		}
@@ -1025,4 +1085,64 @@ func (cr *crashRun) run(r *rng.R) {
 		}
 	}
 	st.SetHooks(nil, nil)
+}
+
+const crJournalBlock = 32768
+
+// bigManifestPoint is the sampling rule of the bigmanifest configuration: sparse elsewhere, but at every
+// mutating operation while the manifest's length is within 400 bytes of a 32 KiB multiple several images
+// are taken whose manifest is cut at an arbitrary byte of its unsynced tail.
+func (cr *crashRun) bigManifestPoint(s *stor.Stor, op stor.Op, sh crShadow, ir, cr2 *rng.R, nmut int) {
+	e := cr.env
+	c := e.c
+	if atomic.LoadInt32(&e.stopped) != 0 || !c.TimeLeft() {
+		return
+	}
+	mfd, length, synced, ok := sh.currentManifest()
+	d := length % crJournalBlock
+	window := ok && length >= crJournalBlock-400 && (d < 400 || d > crJournalBlock-400)
+	if !window && nmut%60 != 0 {
+		return
+	}
+	n := 1
+	if window {
+		n = 8
+		c.Res.Count("bigmanifest", "crash-points-in-window")
+	}
+	cr.mu.Lock()
+	acked := append([]int(nil), cr.acked...)
+	cr.mu.Unlock()
+	issued := int(atomic.LoadInt64(&cr.issued))
+	opName := string(op.Kind) + "/" + crFdName(op.Fd)
+	c.Res.CountN("crash_op", string(op.Kind)+"/"+stor.FtName(op.Fd.Type), n)
+	for i := 0; i < n; i++ {
+		seed := ir.U64()
+		pt := crPoint{OpSeq: op.Seq, Op: opName, ImgSeed: seed}
+		var img *stor.Stor
+		torn := false
+		if window && length > synced {
+			cut := synced + 1 + ir.Intn(length-synced)
+			if i == 0 && (synced/crJournalBlock) != (length/crJournalBlock) { // one cut surely behind the boundary
+				b := (length / crJournalBlock) * crJournalBlock
+				if length > b+1 {
+					cut = b + 1 + ir.Intn(length-b-1)
+				}
+			}
+			pt.ManifestCut, pt.Manifest = cut, crFdName(mfd)
+			img = sh.takeImageCut(s, seed, mfd, cut)
+			b := (cut / crJournalBlock) * crJournalBlock
+			torn = cut < length && synced < b && b < cut
+			if torn {
+				c.Res.Count("bigmanifest", "images-cut-after-boundary-inside-straddling-record")
+			} else {
+				c.Res.Count("bigmanifest", "images-cut-elsewhere-in-tail")
+			}
+			c.Res.Count("tail_policy", "manifest/cut(forced)")
+		} else {
+			img = sh.takeImage(s, seed)
+		}
+		ic := &crImgCase{img: img, issued: issued, acked: acked, path: []crPoint{pt}, tornStraddle: torn}
+		e.check(ic, cr2)
+		atomic.AddInt64(&e.progress, 1)
+	}
 }
